@@ -149,8 +149,13 @@ func (e *Encoder) writeMap(data interface{}) (int, error) {
 
 // setMapEntry stores a decoded entry; a null key or value is the zero value
 // of the map's key or element type (a map ends at 'Z', not at a null key).
-func setMapEntry(m reflect.Value, key, value interface{}) {
-	m.SetMapIndex(convertMapItem(m.Type().Key(), key), convertMapItem(m.Type().Elem(), value))
+func (d *Decoder) setMapEntry(m reflect.Value, key, value interface{}) {
+	// the decoder remembers the generic maps it has converted: all the entries
+	// (and fields) that refer to one map share one conversion per type
+	if d.mapConv == nil {
+		d.mapConv = make(map[_mapConversion]reflect.Value)
+	}
+	m.SetMapIndex(convertMapItemSeen(m.Type().Key(), key, d.mapConv), convertMapItemSeen(m.Type().Elem(), value, d.mapConv))
 }
 
 // convertMapItem converts a decoded key or value to the key or element type of
@@ -238,7 +243,7 @@ func (d *Decoder) readTypedMap() (interface{}, error) {
 			return nil, err
 		}
 		if mType.Kind() == reflect.Map {
-			setMapEntry(mValue, key, value)
+			d.setMapEntry(mValue, key, value)
 		} else {
 			fieldName, ok := key.(string)
 			if !ok {
@@ -348,7 +353,7 @@ func (d *Decoder) readMap(dest reflect.Value, tag byte) error {
 		if err != nil {
 			return err
 		}
-		setMapEntry(mPtrValue.Elem(), key, vl)
+		d.setMapEntry(mPtrValue.Elem(), key, vl)
 	}
 	SetValue(dest, mPtrValue)
 	return nil
